@@ -273,7 +273,7 @@ struct Cfg {
     tu: TimeUnits,
 }
 
-fn renamed_converter(with_min: bool) -> (Converter, Vec<(&'static str, u128)>) {
+pub fn renamed_converter(with_min: bool) -> (Converter, Vec<(&'static str, u128)>) {
     let mut f = UnitsFile::bundled();
     let mk = |names: &[&str], symbols: &[&str], ratio: f64| cooklang::convert::units_file::UnitEntry {
         names: names.iter().map(|s| (*s).into()).collect(),
@@ -500,6 +500,107 @@ pub fn check_styled(ctx: &mut Ctx, cfg: &Cfg, mc: &MCase, front: bool, typed: bo
     }
 }
 
+/// `time`, `prep time` and `cook time` together: the documentation says Metadata::time is the `time` entry "or, if
+/// missing," the prep/cook pair. Every combination of valid / refused / absent, in both key orders and both syntaxes.
+fn composed_time(ctx: &mut Ctx, cfg: &Cfg) {
+    let vals: [(&str, Option<u32>); 3] = [("1h30m", Some(90)), ("45", Some(45)), ("soon", None)];
+    let conv = cfg.parser.converter();
+    for t in [None, Some(0usize), Some(1), Some(2)] {
+        for p in [None, Some(0usize), Some(1), Some(2)] {
+            for c in [None, Some(0usize), Some(1), Some(2)] {
+                if t.is_none() && p.is_none() && c.is_none() {
+                    continue;
+                }
+                for order in 0..2 {
+                    for front in [false, true] {
+                        let mut entries: Vec<(&str, &str)> = Vec::new();
+                        if let Some(i) = t {
+                            entries.push(("time", vals[i].0));
+                        }
+                        if let Some(i) = p {
+                            entries.push(("prep time", vals[i].0));
+                        }
+                        if let Some(i) = c {
+                            entries.push(("cook time", vals[i].0));
+                        }
+                        if order == 1 {
+                            entries.reverse();
+                        }
+                        let body: String = entries.iter().map(|(k, v)| if front { format!("{k}: \"{v}\"\n") } else { format!(">> {k}: {v}\n") }).collect();
+                        let input = if front { format!("---\n{body}---\nstep\n") } else { format!("{body}step\n") };
+                        let case = Case::new("metadata", input.as_str(), Extensions::all().bits(), cfg.name).with(json!({"form": "time_with_prep_and_cook"}));
+                        ctx.begin(&case);
+                        let Ok(r) = crate::core::guarded(|| cfg.parser.parse(&input)) else { continue };
+                        let Some(rec) = r.output() else { continue };
+                        let want = match t {
+                            Some(i) => vals[i].1.map(RecipeTime::Total),
+                            None => {
+                                let (pp, cc) = (p.and_then(|i| vals[i].1), c.and_then(|i| vals[i].1));
+                                if pp.is_some() || cc.is_some() { Some(RecipeTime::Composed { prep_time: pp, cook_time: cc }) } else { None }
+                            }
+                        };
+                        match crate::core::guarded(|| rec.metadata.time(conv)) {
+                            Err(pn) => ctx.panic_violation(&case, "Metadata::time", pn),
+                            Ok(got) => {
+                                if format!("{got:?}") != format!("{want:?}") {
+                                    ctx.violation(&case, "metadata", "time_with_prep_and_cook|wrong_result", format!("[{}] Metadata::time gives {got:?}, the documented reading is {want:?}", cfg.name));
+                                } else {
+                                    ctx.count("form:time_with_prep_and_cook");
+                                    ctx.nontrivial(&case);
+                                }
+                            }
+                        }
+                    }
+                }
+            }
+        }
+    }
+}
+
+/// a caller's metadata validator that switches the standard checks off for ONE key must not change how the other
+/// standard keys of the same front matter are read
+fn validator_for_one_key(ctx: &mut Ctx, cfg: &Cfg) {
+    use cooklang::analysis::{CheckResult, ParseOptions};
+    let seconds: [(&str, &str, bool); 6] = [("servings", "2|4|2", false), ("servings", "2|4", true), ("locale", "english", false), ("locale", "en_GB", true), ("tags", "[a, a]", false), ("author", "<x>", false)];
+    for (k2, v2, valid) in seconds {
+        for first_key in ["time", "title", "source"] {
+            let input = format!("---\n{first_key}: overnight\n{k2}: {v2}\n---\nstep\n");
+            let case = Case::new("metadata", input.as_str(), Extensions::all().bits(), cfg.name).with(json!({"form": "validator_for_one_key", "key": k2}));
+            ctx.begin(&case);
+            let plain = match crate::core::guarded(|| cfg.parser.parse(&input)) {
+                Ok(r) => r,
+                Err(_) => continue,
+            };
+            let opts = ParseOptions {
+                recipe_ref_check: None,
+                metadata_validator: Some(Box::new(move |k, _v, o| {
+                    if k.as_str() == Some(first_key) {
+                        o.run_std_checks(false);
+                    }
+                    CheckResult::Ok
+                })),
+            };
+            let with = match crate::core::guarded(|| cfg.parser.parse_with_options(&input, opts)) {
+                Ok(r) => r,
+                Err(p) => {
+                    ctx.panic_violation(&case, "parse_with_options", p);
+                    continue;
+                }
+            };
+            let about = |r: &cooklang::RecipeResult| -> Vec<String> { r.report().warnings().map(|w| w.message.to_string()).filter(|m| m.contains(k2)).collect() };
+            let (a, b) = (about(&plain), about(&with));
+            let (sa, sb) = (plain.output().map(|o| o.servings().map(|s| s.to_vec())), with.output().map(|o| o.servings().map(|s| s.to_vec())));
+            let _ = valid;
+            if a != b || sa != sb {
+                ctx.violation(&case, "metadata", "validator_for_one_key|other_key_read_differently", format!("[{}] with the checks of {first_key:?} switched off, the warnings about {k2:?} are {b:?} (plain parse: {a:?}), servings {sb:?} (plain {sa:?})", cfg.name));
+            } else {
+                ctx.count("form:validator_for_one_key");
+                ctx.nontrivial(&case);
+            }
+        }
+    }
+}
+
 pub fn run(ctx: &mut Ctx) {
     let (rc1, k1) = renamed_converter(true);
     let (rc2, k2) = renamed_converter(false);
@@ -516,6 +617,10 @@ pub fn run(ctx: &mut Ctx) {
     let mut k = 0u64;
     for cfg in &cfgs {
         let _ = cfg.tu.label;
+        if ctx.shard == 0 {
+            composed_time(ctx, cfg);
+            validator_for_one_key(ctx, cfg);
+        }
         let mut rng = Rng::new(ctx.seed ^ crate::core::hash64(cfg.name.as_bytes()) ^ ctx.shard as u64);
         let mut cases = if ctx.shard == 0 { duration_cases(&mut rng, &cfg.tu, n_random) } else { duration_cases(&mut rng, &cfg.tu, n_random).into_iter().filter(|c| c.form == "number_unit_pairs").collect() };
         if ctx.shard == 0 {
